@@ -27,13 +27,17 @@ func init() {
 				"reply, and that function accepts only replies whose ID, question count, question type and (case-insensitively) " +
 				"name equal the request's.",
 			NotCovered: "the up/down state machine over all fault sequences and the timing of the backoff (run-time quantities).",
-			Rules: map[string]string{"C17-R19": "packReq: every PackBuffer into the pooled buffer is behind a comparison of the query's length with the buffer's length (an oversized query is an error, not a partly sent one)", "C17-R18": "the forwarder's metrics listener classifies errors without calling a method of a net.Error it did not find: a call on the target of errors.As is made only where errors.As reported true (a panic in the deferred metrics call takes the response with it)", "C17-R17": "the health-check probe is an ordinary recursive query (RecursionDesired set): a recursive upstream answers it like a client's query and not with REFUSED for an uncached name", "C17-R16": "the refresh worker runs one refresh at a time in its own goroutine (shared with C13-R11): two health-check rounds never overlap, so an older round cannot overwrite the result of a newer one", "C17-R15": "cmd.splitUpstreamURL returns the network named by the URL scheme: on the successful return the network is, on the path through the scheme check, the converted u.Scheme (a tcp:// upstream is asked over TCP and not over UDP first), and NetworkAny only for an address without a scheme", "C17-R14": "the health check gives every main upstream a time budget of its own: the probes inside the loop over the upstreams run either concurrently or under a context derived inside the loop, not one after another under the round's single deadline (F54)", "C17-R13": "NewUpstreamPlain: the buffers for exchanges over TCP hold a whole DNS message (at least 65535 bytes: readMsg slices the buffer to the length the upstream announces), the UDP buffers at least the EDNS size the forwarder can be offered (4096)", "C17-R12": "UpstreamPlain.getBuffer and putBuffer map each network to the same buffer pool", "C17-R11": "a buffer that is both sent and received into is filled again before it is sent a second time (the retry after a failed exchange sends the query, not the remains of a partial response)", "C17-R10": "isExpectedConnErr is net.Error-or-EOF on non-nil errors; the forward metrics listener tolerates the nil response of a failed exchange", "C17-R9": "the fail-over decision classifies exchange errors with the same helper as the retry (net.Error or io.EOF)", "C17-RC": "class rules (error chains, shadowed results, character classes, crossed arguments, pool constructors, array pools, loop completeness, loop-carried buffers, replacing setters, complete clones, Grow arithmetic, pooled-buffer escape, sorted searches, fresh decode targets, per-iteration objects, whole-message copies, codec guards) over the packages this property rests on", "C17-R8": "every fmt.Errorf that reports an error value wraps it with %w (the fail-over decision classifies causes with errors.As)", "C17-R7": "upstream connection pool: Get hands out only connections that passed the idle-expiry test (expired ones are closed), Put queues or closes", "C17-R1": "ServeDNS fail-over table", "C17-R2": "who replaces the active set, under which lock and gate",
+			Rules: map[string]string{"C17-R20": "packReq sends what PackBuffer packed: the returned slice (a new one when the buffer is not longer than the message) is copied into the pooled buffer, so a query exactly as long as the buffer does not go out as the buffer's previous contents", "C17-R19": "packReq: every PackBuffer into the pooled buffer is behind a comparison of the query's length with the buffer's length (an oversized query is an error, not a partly sent one)", "C17-R18": "the forwarder's metrics listener classifies errors without calling a method of a net.Error it did not find: a call on the target of errors.As is made only where errors.As reported true (a panic in the deferred metrics call takes the response with it)", "C17-R17": "the health-check probe is an ordinary recursive query (RecursionDesired set): a recursive upstream answers it like a client's query and not with REFUSED for an uncached name", "C17-R16": "the refresh worker runs one refresh at a time in its own goroutine (shared with C13-R11): two health-check rounds never overlap, so an older round cannot overwrite the result of a newer one", "C17-R15": "cmd.splitUpstreamURL returns the network named by the URL scheme: on the successful return the network is, on the path through the scheme check, the converted u.Scheme (a tcp:// upstream is asked over TCP and not over UDP first), and NetworkAny only for an address without a scheme", "C17-R14": "the health check gives every main upstream a time budget of its own: the probes inside the loop over the upstreams run either concurrently or under a context derived inside the loop, not one after another under the round's single deadline (F54)", "C17-R13": "NewUpstreamPlain: the buffers for exchanges over TCP hold a whole DNS message (at least 65535 bytes: readMsg slices the buffer to the length the upstream announces), the UDP buffers at least the EDNS size the forwarder can be offered (4096)", "C17-R12": "UpstreamPlain.getBuffer and putBuffer map each network to the same buffer pool", "C17-R11": "a buffer that is both sent and received into is filled again before it is sent a second time (the retry after a failed exchange sends the query, not the remains of a partial response)", "C17-R10": "isExpectedConnErr is net.Error-or-EOF on non-nil errors; the forward metrics listener tolerates the nil response of a failed exchange", "C17-R9": "the fail-over decision classifies exchange errors with the same helper as the retry (net.Error or io.EOF)", "C17-RC": "class rules (error chains, shadowed results, character classes, crossed arguments, pool constructors, array pools, loop completeness, loop-carried buffers, replacing setters, complete clones, Grow arithmetic, pooled-buffer escape, sorted searches, fresh decode targets, per-iteration objects, whole-message copies, codec guards) over the packages this property rests on", "C17-R8": "every fmt.Errorf that reports an error value wraps it with %w (the fail-over decision classifies causes with errors.As)", "C17-R7": "upstream connection pool: Get hands out only connections that passed the idle-expiry test (expired ones are closed), Put queues or closes", "C17-R1": "ServeDNS fail-over table", "C17-R2": "who replaces the active set, under which lock and gate",
 				"C17-R3": "health probe state table", "C17-R5": "configuration wiring: main servers, fallback servers and health-check settings of the configuration reach the handler's fields of the same meaning",
 				"C17-R4": "reply validation tables"},
 		}})
 }
 
 func runC17(c *an.Ctx) {
+	c.Floor("C17-R20", 2)
+	if n := c17PackedBytesAreSent(c, "C17-R20"); n < 2 {
+		c.Und("C17-R20", "PackBuffer calls", 0, "%d PackBuffer calls found in packReq, 2 expected", n)
+	}
 	c.Floor("C17-R19", 2)
 	if n := c17PackReqBounded(c, "C17-R19"); n < 2 {
 		c.Und("C17-R19", "PackBuffer calls", 0, "%d PackBuffer calls found in packReq, 2 expected", n)
